@@ -49,6 +49,7 @@ def _worker(args):
         out["status"] = "spec"
         idx, line = specrun.spec_line(spec, N, N + 4)
         out["line"] = line
+        out["fold"] = specrun.fold_line(spec)
         out["root_is_0"] = idx[spec.root] == 0 and spec.root == root
         out["nclasses"] = len(idx)
         out["genuine"] = [f"{r.comb_class!r}: {g}" for r in spec for g in [specrun.genuine(r)] if g]
@@ -170,6 +171,15 @@ def run_specs(pid, tier, seed, factor, judge):
     lines = [o["line"] for o in outs if "line" in o and "genuine" in o]
     lean = common.run_driver("Spec", "\n".join(lines) + "\n") if lines else []
     assert len(lean) == len(lines)
+    if pid == "C02":
+        # the grouping of equivalence chains into path rules, judged by the proven foldedB (foldedB_sound, foldedB_preserves)
+        fo = [o for o in outs if o.get("fold")]
+        got = common.run_driver("Folded", "\n".join(o["fold"] for o in fo) + "\n") if fo else []
+        assert len(got) == len(fo)
+        for o, g in zip(fo, got):
+            res.dist["grouped rule set is the folding of the ungrouped one (foldedB)" if g == "folded=1" else "grouping not recognised by foldedB"] += 1
+            if g != "folded=1":
+                res.diff("grouping of equivalence chains vs the model's folding (foldedB)", o["cfg"], g, "folded=1 for " + o["fold"][:400])
     k = 0
     for o in outs:
         cfg = o["cfg"]
